@@ -447,6 +447,7 @@ def fromStr (s : String) (delim : Char) : Except Exc Path := do
 def normDoc (doc : Option PyVal) : Except Exc (Option PyVal) :=
   match doc with
   | none => .ok none
+  | some .none => .ok none
   | some d =>
     if !PyVal.truthy d then .ok (some d) else
     let strList (v : PyVal) : Except Exc (List PyVal) :=
